@@ -74,7 +74,9 @@ func (s *copyService) Handle(ctx context.Context, conn net.Conn) error {
 		_, err = io.Copy(conn, conn2)
 
 		return err
-	case *net.TCPConn:
+	default:
+		// every stream connection, not only a bare *net.TCPConn: the server
+		// hands services wrapped connections, for which nothing was relayed
 		defer s.c.Send(event.New(
 			EventOptions,
 			event.Category("copy"),
@@ -90,10 +92,13 @@ func (s *copyService) Handle(ctx context.Context, conn net.Conn) error {
 
 		defer conn2.Close()
 
-		go io.Copy(conn2, conn)
+		go func() {
+			io.Copy(conn2, conn)
+			// the client is gone: end the backend leg too, so that the
+			// copy below returns
+			conn2.Close()
+		}()
 		_, err = io.Copy(conn, conn2)
 		return err
-	default:
-		return nil
 	}
 }
